@@ -150,8 +150,8 @@ PROPS["C14"] = {
     "level_text": "Stateful property test: after every successful EDS reconcile the stored status is compared with a reference implementation of the documented status function applied to the replica-set statuses that reconcile read (sums, desired/upToDate from active and canary set, state, reason, Canary-Paused/Canary-Failed conditions); after every active/canary sync 0<=available<=ready<=current<=desired; after stabilisation the counters are compared with the pods and nodes that exist. A function-level test feeds the status function alone with 1-3 replica sets carrying generated counters (incl. leftover sets with non-zero counters and sets that are being deleted under a finalizer while they still report pods), conditions, roles and annotation settings.",
     "level_note": SM_NOTE,
     "technique": "stateful property-based testing (rapid) against a reference status function + quiescent-state oracle + function-level property test of the status function",
-    "quick": {"jobs": [rapid_job("sm", "^TestC14SM$", 500, shards=4), rapid_job("function", "^TestC14StatusFunction$", 3000, shards=2)]},
-    "thorough": {"jobs": [rapid_job("sm", "^TestC14SM$", 2500, shards=12, timeout="50m"), rapid_job("function", "^TestC14StatusFunction$", 40000, shards=4)]},
+    "quick": {"jobs": [rapid_job("sm", "^TestC14SM$", 500, shards=4), rapid_job("function", "^TestC14StatusFunction$", 3000, shards=2), rapid_job("queue", "^TestC14Queue$", 400, shards=2), rapid_job("known", "^TestC14Known", 1)]},
+    "thorough": {"jobs": [rapid_job("sm", "^TestC14SM$", 2500, shards=12, timeout="50m"), rapid_job("function", "^TestC14StatusFunction$", 40000, shards=4), rapid_job("queue", "^TestC14Queue$", 6000, shards=6, timeout="50m"), rapid_job("known", "^TestC14Known", 1)]},
 }
 
 PROPS["C03"]["quick"]["jobs"].append(rapid_job("sm", "^TestC09SM$", 60, shards=2))
@@ -238,8 +238,8 @@ PROPS["C19"] = {
     "level_text": "Stateful property test whose user actions are the real command bodies (run through build-tagged shims with an injected client): a generated prefix history reaches no canary / canary running / auto-paused / user-paused / failed / mid rolling update, then up to three commands, each followed by fair rounds. Oracle: the store diff before/after a command touches only the documented annotation keys (for `fail`: only the canary replica set's Canary-Failed condition); a command whose precondition is false, or that returns an error, writes nothing; annotation values are the documented ones; within six rounds pause => Canary Paused, unpause => Canary, validate => exactly the replica set that was status.canary.replicaSet when the command ran is active (a later template is not promoted by the old annotation: promotion-rule monitor), fail => rollback. A scenario family covers `canary fail` on a re-used replica set.",
     "level_note": "Expectations about the controller's interpretation are only demanded when the command acted on the current canary (status.canary matching spec.template) and, for fail, when the canary is not explicitly validated.",
     "technique": "stateful property-based testing (rapid) with real command bodies as actions, store-diff oracle and bounded-rounds interpretation oracle",
-    "quick": {"jobs": [rapid_job("commands", "^TestC19Commands$", 300, shards=4), rapid_job("reused-set", "^TestC19FailReusedSet$", 60), rapid_job("fail-mid-sync", "^TestC19FailMidSync$", 60, requires="verif_plugin")]},
-    "thorough": {"jobs": [rapid_job("commands", "^TestC19Commands$", 2500, shards=15, timeout="50m"), rapid_job("reused-set", "^TestC19FailReusedSet$", 400), rapid_job("fail-mid-sync", "^TestC19FailMidSync$", 500, requires="verif_plugin")]},
+    "quick": {"jobs": [rapid_job("commands", "^TestC19Commands$", 300, shards=4), rapid_job("reused-set", "^TestC19FailReusedSet$", 60), rapid_job("fail-mid-sync", "^TestC19FailMidSync$", 60, requires="verif_plugin"), rapid_job("sequences", "^TestC19CanarySequences$", 1, shards=4, requires="verif_plugin")]},
+    "thorough": {"jobs": [rapid_job("commands", "^TestC19Commands$", 2500, shards=15, timeout="50m"), rapid_job("reused-set", "^TestC19FailReusedSet$", 400), rapid_job("fail-mid-sync", "^TestC19FailMidSync$", 500, requires="verif_plugin"), rapid_job("sequences", "^TestC19CanarySequences$", 1, shards=4, requires="verif_plugin")]},
 }
 
 NOT_APPLICABLE = {}
